@@ -213,7 +213,7 @@ impl Elab {
                 let Some((left, right, elem)) = as_vec_l(&rb.cur, self.lenient_scalar_select) else {
                     return fail("part-select of a scalar");
                 };
-                let (l, r) = (self.const_i64(l, sc)?, self.const_i64(r, sc)?);
+                let (l, r) = (self.const_i64_lc(l, sc, lc)?, self.const_i64_lc(r, sc, lc)?);
                 let ew = elem.width as i64;
                 let (lo, n) = if left >= right {
                     if l < r {
@@ -255,7 +255,7 @@ impl Elab {
                     return fail("part-select of a scalar");
                 };
                 let ew = elem.width;
-                let count = self.const_i64(cnt, sc)?;
+                let count = self.const_i64_lc(cnt, sc, lc)?;
                 if count <= 0 || count > (1 << 20) {
                     return fail("indexed part-select width");
                 }
@@ -695,7 +695,7 @@ impl Elab {
                 }
             }
             Expr::Repl(n, xs) => {
-                let n = self.const_i64(n, sc)?;
+                let n = self.const_i64_lc(n, sc, lc)?;
                 if n <= 0 || n > (1 << 20) {
                     return fail("replication count");
                 }
@@ -798,7 +798,7 @@ impl Elab {
                             Self::cast_to(&vt.ty, inner)
                         }
                         None => {
-                            let n = self.const_i64(t, sc)?;
+                            let n = self.const_i64_lc(t, sc, lc)?;
                             if n <= 0 || n > (1 << 22) {
                                 return fail("cast size");
                             }
